@@ -68,6 +68,11 @@ class SymDict:
         has, val = ev.st.ghost[self.name]
         ev.st.ghost[self.name] = (z3.Store(has, k, True), z3.Store(val, k, _valid(v)))
 
+    def sym_len(self):
+        # the number of entries of an arbitrary archive: some non-negative integer, not tied to which keys are present
+        f = symex.fresh("dict_len")
+        return z3.If(f >= 0, f, -f)
+
     def sym_getattr(self, attr, ev, node):
         if attr == "setdefault":
             def setdefault(ev2, a, kw, n2):
@@ -272,7 +277,18 @@ def generate(prop, label):
 def unit_save(prop="C17"):
     def unit(tier, known):
         from contracts.registry import run_parallel
-        from contracts.readers import to_case_c17
+        def to_case_c17(ob):
+            """for the save unit: the flag pairs (same archive, overwrite True vs False), the no-statistics cases and the histories that
+            save more than once to one path first, then a sample of every target kind"""
+            try:
+                from rtc import c17
+                cs = list(c17.enumerate_cases("quick", 0))
+            except Exception:
+                return None
+            first = [c for c in cs if c.get("kind") in ("flag_pair", "no_stats")]
+            multi = [c for c in cs if c.get("kind") == "history" and len(c.get("steps", [])) >= 2 and str(c.get("target", "")).startswith("npz")]
+            rest = [c for c in cs if c not in first and c not in multi]
+            return first + multi[:150] + rest[:150]
         jobs = [("contracts.standardize_save", "generate", (prop, label)) for label in LABELS]
         return run_parallel("std_save", jobs, to_case=to_case_c17, replay_module="rtc.c17")
     unit.__name__ = "std_save"
